@@ -8,6 +8,7 @@ import AcraModel.Generated.V1Export
 import AcraModel.KeystoreSec.V1Methods
 import AcraModel.KeystoreSec.Perms
 import AcraModel.KeystoreSec.RingOpenLemmas
+import AcraModel.KeystoreSec.DerRoundTrip
 /-!
 # C07 — keys at rest are encrypted, bound to their owner, tamper-evident and confined
 
@@ -1000,6 +1001,58 @@ theorem copied_ring_preserved_and_reported (c : CryptoOps) (hi : HashInj c) (sig
     r.out.isErr = true ∧ r.backend = b ∧ r.backend.files (ringFile bob) = some d ∧ ∀ call ∈ r.trace, call.isWrite = false :=
   rw_open_tampered_fails_and_preserves c sigKey time b bob d .signature hstored
     (tampered_or_copied_ring_does_not_load c hi sigKey bob alice raw d p hparse hsigs (Or.inl (by rw [hraw])) (Or.inr hne))
+
+/-- **An untouched ring loads, and the read-write open leaves it alone.** The file `signKeyRing` wrote for
+ring path `path` (any ring `r`, any time stamp; sizes in the range Go's reader accepts) passes the pull at
+`path`: `OpenKeyRingRW` hands out the ring's data, changes nothing and writes nothing. (Together with the
+theorems above: rings that load are kept as they are, rings that do not load are kept as they are and
+reported, only missing rings are created.) -/
+theorem honest_ring_file_loads (c : CryptoOps) (sigKey path : Bytes) (time t' : Int) (r : Export.Ring) (b : Backend)
+    (hr : (Der.derRing r).length < 8388608)
+    (hsig : (Notary.signBytes c sigKey (sigCtx path) (ringPayload time r)).length < 16777216)
+    (hstored : b.get (ringFile path) = .ok (signedFile c sigKey path time r)) :
+    pull c sigKey b path = .ok (Der.derRing r) ∧
+    (openKeyRing c sigKey t' b path).backend = b ∧
+    (∀ call ∈ (openKeyRing c sigKey t' b path).trace, call.isWrite = false) ∧
+    (b.lockFails = false → b.unlockFails = false → (openKeyRing c sigKey t' b path).out = .loaded (Der.derRing r)) := by
+  have hp : pull c sigKey b path = .ok (Der.derRing r) := by
+    rw [pull_of_get c sigKey b path _ hstored]
+    exact loadBytes_signedFile c sigKey path time r hr hsig
+  have hl := openKeyRing_loaded c sigKey t' b path _ hp
+  refine ⟨hp, hl.1, hl.2, ?_⟩
+  intro h1 h2
+  unfold openKeyRing
+  simp [h1, hp, withUnlock, h2]
+
+/-- **Alice's honestly written ring file at Bob's path** (the statement of `copied_ring_preserved_and_reported`
+for the very bytes the key store wrote): the file `signKeyRing` made for ring path `alice`, stored at ring
+path `bob ≠ alice`, does not load there; every read-write open of `bob` fails and leaves the file and the
+whole back end as they are. -/
+theorem honest_ring_at_foreign_path_preserved_and_reported (c : CryptoOps) (hi : HashInj c) (sigKey alice bob : Bytes)
+    (time t' : Int) (r : Export.Ring) (b : Backend)
+    (hr : (Der.derRing r).length < 8388608)
+    (hsig : (Notary.signBytes c sigKey (sigCtx alice) (ringPayload time r)).length < 16777216)
+    (hne : bob ≠ alice) (hstored : b.get (ringFile bob) = .ok (signedFile c sigKey alice time r)) :
+    let res := openKeyRing c sigKey t' b bob
+    res.out.isErr = true ∧ res.backend = b ∧ res.backend.files (ringFile bob) = some (signedFile c sigKey alice time r) ∧
+    ∀ call ∈ res.trace, call.isWrite = false :=
+  copied_ring_preserved_and_reported c hi sigKey alice bob (ringPayload time r) _ _ t' b
+    (parse_signedFile c sigKey alice time r hr hsig) rfl rfl hne hstored
+
+/-- the size hypotheses of `honest_ring_file_loads` are satisfiable (Box instance, the empty ring of path `p`) -/
+example : (Der.derRing (emptyRing (ofStr "p"))).length < 8388608 ∧
+    (Notary.signBytes boxOps [7] (sigCtx (ofStr "p")) (ringPayload 0 (emptyRing (ofStr "p")))).length < 16777216 := by
+  refine ⟨by decide, ?_⟩
+  obtain ⟨pc, hpc, hlen, _⟩ := parsePayload_ring 0 (emptyRing (ofStr "p")) (by decide)
+  rw [hpc]
+  have h0 : (Der.derRing (emptyRing (ofStr "p"))).length < 100 := by decide
+  have h1 := tlv_length_le 0x30 pc (by omega)
+  have h2 : (sigCtx (ofStr "p")).length = 37 := by decide
+  show (Box.esc [7] ++ (sigCtx (ofStr "p") ++ (ofStr ": " ++ Der.tlv 0x30 pc))).length < 16777216
+  have h3 : (Box.esc [7]).length ≤ 8 := by decide
+  have h4 : (ofStr ": ").length = 2 := by decide
+  simp only [List.length_append]
+  omega
 
 /-- **Modes on the creation path of a ring.** In the directory back end the only creating calls of `Put`
 are `MkdirAll(…, keyDirPerm)` for the ring's directories and `OpenFile(O_CREATE|O_EXCL, keyFilePerm)` for the
